@@ -139,7 +139,7 @@ def run_random_case(ctx, kind_, idx):
     rng = ctx.rng(kind_, idx)
     cid = ctx.case_id(kind_, idx)
     x, y, meta = R.gen_series(rng, 2, 60, ties_share=0.2, long_share=R.LONG_SHARE, real_valued=kind_ == "huge",
-                              force_m=int(rng.integers(66000, 90001)) if kind_ == "huge" else None)
+                              force_m=(gen.huge_size(rng) if idx % 6 != 0 else int(rng.integers(66000, 90001))) if kind_ == "huge" else None)
     if kind_ == "huge":
         y = y + 1e-3 * np.arange(len(y))        # no two samples alike: a cut taken from the wrong place shows
     mode = ["function", "weaver", "weaver_reshaped", "slice_value", "slice_index", "truncate_index"][int(rng.integers(0, 6))]
